@@ -125,7 +125,7 @@ class ProgBase(plumpy.Process):
                 try:
                     self.out(fx[1], fx[2])
                     self._t('out', fx[1], fx[2])
-                except Exception as exc:  # noqa: BLE001
+                except ValueError as exc:  # a rejected value; anything else (e.g. a failing output hook) is not the program's business
                     self._t('outerr', fx[1], type(exc).__name__)
             elif kind == 'soon':
                 self.call_soon(_make_cb(self, fx[1], fx[2]))
